@@ -49,6 +49,55 @@ def post_order(e):
     return out
 
 
+def tie_assign(n):
+    """([target, ...], [value, ...]) for `std::tie(a, b, ...) = std::make_tuple(x, y, ...)` (std::make_pair for two): a
+    simultaneous assignment - make_tuple stores copies of all values and tie binds all targets before the first target is
+    written, the targets are then written from left to right.  None for every other node (std::forward_as_tuple keeps
+    references and reads its operands late: that is not this form)"""
+    if n is None or n["k"] != "CXXOperatorCallExpr" or n.get("op") != "=" or len(kids(n)) != 2:
+        return None
+    l, r = peel(kids(n)[0]), peel(kids(n)[1])
+    if l is None or r is None or l["k"] != "CallExpr" or r["k"] != "CallExpr" or "callee" not in l or "callee" not in r:
+        return None
+    if l["callee"].get("qname") != "std::tie" or r["callee"].get("qname") not in ("std::make_tuple", "std::make_pair"):
+        return None
+    if not kids(l) or len(kids(l)) != len(kids(r)) or any(a is None or a["k"] == "DefaultArg" for a in kids(l) + kids(r)):
+        return None
+    return list(kids(l)), list(kids(r))
+
+
+def tie_calls(root):
+    """ids of the std::tie(...) / std::make_tuple(...) call nodes of the recognised simultaneous assignments below root"""
+    out = set()
+    for y in ir.walk(root):
+        if tie_assign(y):
+            out.add(id(peel(kids(y)[0])))
+            out.add(id(peel(kids(y)[1])))
+    return out
+
+
+def written_lvalues(y):
+    """the lvalue expressions the node y itself writes: ++ / --, the assignment operators, std::tie(...) = std::make_tuple(...)"""
+    ta = tie_assign(y)
+    if ta:
+        return ta[0]
+    w = match.unop(y, ("++", "--")) or (match.binop(y, ASSIGN_OPS) if y["k"] in ("BinaryOperator", "CompoundAssignOperator", "CXXOperatorCallExpr") else None)
+    return [w[1]] if w else []
+
+
+def simple_assigns(root):
+    """(lhs, rhs, node) of every plain assignment below root, the pairs of a std::tie(...) = std::make_tuple(...) included"""
+    for y in ir.walk(root):
+        ta = tie_assign(y)
+        if ta:
+            for l, r in zip(*ta):
+                yield l, r, y
+            continue
+        b = match.binop(y, ("=",)) if y["k"] in ("BinaryOperator", "CXXOperatorCallExpr") else None
+        if b:
+            yield b[1], b[2], y
+
+
 def path_roots(lf):
     """the expressions evaluated for their effect on one path, in order: initialisers, expression statements, returned value
     (conditions are evaluated by the decision table itself)"""
@@ -1798,10 +1847,33 @@ def check_owner(ck, tu, fn, tag, x, c, g):
 def check_links(ck, fn, g):
     """SPLAY-LINK: a child link may only be overwritten when saved before or known null"""
     reassigned = set()
+    link_lhs = set()        # ids of the link expressions that are written, not read, where they stand
     for y in ir.walk(fn.body):
-        w = match.unop(y, ("++", "--")) or (match.binop(y, ASSIGN_OPS) if y["k"] in ("BinaryOperator", "CompoundAssignOperator") else None)
-        if w and ref_of(w[1]) is not None:
-            reassigned.add(ref_of(w[1]))
+        for lv in (written_lvalues(y) if y["k"] in ("UnaryOperator", "BinaryOperator", "CompoundAssignOperator") or tie_assign(y) else []):
+            if ref_of(lv) is not None:
+                reassigned.add(ref_of(lv))
+            if tie_assign(y) or match.binop(y, ("=",)):
+                link_lhs.add(id(strip_casts(lv)))
+    understood = tie_calls(fn.body)
+    for y in ir.walk(fn.body):
+        # closed world: a link handed to a call by reference (or by address) may be overwritten there
+        if "callee" not in y or id(y) in understood:
+            continue
+        callee = fn.tu.by_did.get(y["callee"].get("did"))
+        functor = match.functor_call(y) is not None
+        args = kids(y)[(1 if y.get("member_call") or functor else 0):]
+        for i, a in enumerate(args):
+            a0 = strip_casts(a)
+            by_addr = a0 is not None and a0["k"] == "UnaryOperator" and a0.get("op") == "&" and kids(a0)
+            if by_addr:
+                a0 = strip_casts(kids(a0)[0])
+            if a0 is None or a0["k"] != "MemberExpr" or a0.get("member") not in ("left", "right") or not a0.get("arrow"):
+                continue
+            pty = (callee.params[i]["ty"] if callee is not None and (functor or y["k"] != "CXXOperatorCallExpr") and i < len(callee.params) else "?").replace(" ", "")
+            if not by_addr and pty != "?" and (not pty.endswith("&") or pty.endswith("const&") or pty.endswith("&&")):
+                continue        # taken by value or read-only
+            raise dtable.Undecidable("%s: SPLAY-LINK: the link %s is handed to %s() by %s: whether it is overwritten there is not understood"
+                                     % (fn.nloc(y), dtable.describe(a0), y["callee"]["name"], "address" if by_addr else "reference"))
 
     def canon(d, depth=0):
         """a never-reassigned local that is a plain copy of a never-reassigned variable stands for that variable"""
@@ -1828,11 +1900,11 @@ def check_links(ck, fn, g):
         read_before = False
         foreign = None          # a read of the same link through an expression that is not a plain variable: may be the same node
         aliases = {bref}
+        for lhs_, rhs_, y in simple_assigns(fn.body):
+            if var_of(lhs_) == bref and strip_casts(lhs_)["k"] == "DeclRefExpr" and ref_of(rhs_) is not None \
+                    and strip_casts(rhs_)["k"] == "DeclRefExpr":
+                aliases.add(var_of(rhs_))
         for y in ir.walk(fn.body):
-            bb = match.binop(y, ("=",))
-            if bb and var_of(bb[1]) == bref and strip_casts(bb[1])["k"] == "DeclRefExpr" and ref_of(bb[2]) is not None \
-                    and strip_casts(bb[2])["k"] == "DeclRefExpr":
-                aliases.add(var_of(bb[2]))
             if y["k"] == "VarDecl" and canon(y.get("did")) == bref and kids(y) and kids(y)[0] is not None and ref_of(kids(y)[0]) is not None:
                 aliases.add(var_of(kids(y)[0]))
         for y in ir.walk(fn.body):
@@ -1840,7 +1912,7 @@ def check_links(ck, fn, g):
                 continue
             # is y read (not the lhs of an assignment)?
             par = fn.parent(y)
-            is_lhs = par is not None and match.binop(par, ("=",)) and strip_casts(match.binop(par, ("=",))[1]) is y
+            is_lhs = id(y) in link_lhs or (par is not None and match.binop(par, ("=",)) and strip_casts(match.binop(par, ("=",))[1]) is y)
             py = g.pos_deep(y)
             if ref_of(kids(y)[0]) is None:
                 if not is_lhs and py and px and (g.reachable(py, px) or py == px):
@@ -1855,10 +1927,10 @@ def check_links(ck, fn, g):
             # the same link read through another variable that was copied from / to this one before the write
             may = {bref}
             copies = []
+            for lhs_, rhs_, y in simple_assigns(fn.body):
+                if strip_casts(lhs_)["k"] == "DeclRefExpr" and strip_casts(rhs_)["k"] == "DeclRefExpr":
+                    copies.append((var_of(lhs_), var_of(rhs_), g.pos_deep(y)))
             for y in ir.walk(fn.body):
-                bb = match.binop(y, ("=",))
-                if bb and strip_casts(bb[1])["k"] == "DeclRefExpr" and strip_casts(bb[2])["k"] == "DeclRefExpr":
-                    copies.append((var_of(bb[1]), var_of(bb[2]), g.pos_deep(y)))
                 if y["k"] == "VarDecl" and kids(y) and kids(y)[0] is not None and strip_casts(kids(y)[0])["k"] == "DeclRefExpr":
                     copies.append((canon(y["did"]), var_of(kids(y)[0]), g.pos_deep(y)))
             grew = True
@@ -1872,7 +1944,7 @@ def check_links(ck, fn, g):
                 if y is tnode or y["k"] != "MemberExpr" or y.get("member") != tnode["member"] or not kids(y):
                     continue
                 par = fn.parent(y)
-                is_lhs = par is not None and match.binop(par, ("=",)) and strip_casts(match.binop(par, ("=",))[1]) is y
+                is_lhs = id(y) in link_lhs or (par is not None and match.binop(par, ("=",)) and strip_casts(match.binop(par, ("=",))[1]) is y)
                 py = g.pos_deep(y)
                 if not is_lhs and var_of(kids(y)[0]) in may - aliases and py and (g.reachable(py, px) or py == px):
                     foreign = y
@@ -1888,17 +1960,18 @@ def check_links(ck, fn, g):
                   "fresh node" if fresh else "old link read before" if read_before else "link known null", nontrivial=False)
 
     for x in ir.walk(fn.body):
+        ta = tie_assign(x)
         b = match.binop(x, ("=",))
-        if not b:
+        if not ta and not b:
             continue
-        lhs = strip_casts(b[1])
-        targets = []
-        if lhs["k"] == "MemberExpr" and lhs.get("member") in ("left", "right") and lhs.get("arrow"):
-            targets = [lhs]
-        elif lhs["k"] == "ConditionalOperator":
-            targets = [strip_casts(k_) for k_ in kids(lhs)[1:] if strip_casts(k_)["k"] == "MemberExpr"]
-        for tnode in targets:
-            ck.guarded(lambda: judge(x, tnode))
+        for lhs in ([strip_casts(l) for l in ta[0]] if ta else [strip_casts(b[1])]):
+            targets = []
+            if lhs["k"] == "MemberExpr" and lhs.get("member") in ("left", "right") and lhs.get("arrow"):
+                targets = [lhs]
+            elif lhs["k"] == "ConditionalOperator":
+                targets = [strip_casts(k_) for k_ in kids(lhs)[1:] if strip_casts(k_)["k"] == "MemberExpr"]
+            for tnode in targets:
+                ck.guarded(lambda: judge(x, tnode))
 
 
 def size_effects(fn, root, what):
@@ -2151,9 +2224,9 @@ def single_init(fn, did):
     if len(decls) != 1 or not kids(decls[0]) or kids(decls[0])[0] is None:
         return None
     for y in ir.walk(fn.body):
-        w = match.unop(y, ("++", "--")) or (match.binop(y, ASSIGN_OPS) if y["k"] in ("BinaryOperator", "CompoundAssignOperator", "CXXOperatorCallExpr") else None)
-        if w and normalize.lvalue_root(w[1]) == did and ref_of(w[1]) == did:
-            return None
+        for lv in written_lvalues(y):
+            if normalize.lvalue_root(lv) == did and ref_of(lv) == did:
+                return None
     return kids(decls[0])[0]
 
 
@@ -2178,11 +2251,7 @@ def check_orient(ck, fn):
         und("expected one loop that compares the key with tree nodes, found %d" % len(loops))
     init, cond, inc, body = match.loop_parts(loops[0])
     def writes_t(root):
-        for y in ir.walk(root):
-            w = match.unop(y, ("++", "--")) or (match.binop(y, ASSIGN_OPS) if y["k"] in ("BinaryOperator", "CompoundAssignOperator", "CXXOperatorCallExpr") else None)
-            if w and ref_of(w[1]) == t:
-                return True
-        return False
+        return any(ref_of(lv) == t for y in ir.walk(root) for lv in written_lvalues(y))
     for part in (init, cond, inc):
         if part is not None and (has_cmp(part) or writes_t(part)):
             und("the loop header compares keys / moves the search position", part)
@@ -2190,9 +2259,15 @@ def check_orient(ck, fn):
     def fmt(q):
         return ".".join(("t",) + q)
 
+    INT_TYPES = ("int", "long", "short", "char", "signed char", "long long", "unsigned int", "unsigned long", "unsigned short",
+                 "unsigned char", "unsigned long long")
+    CMP = {"==": lambda a, b: a == b, "!=": lambda a, b: a != b, "<": lambda a, b: a < b, ">": lambda a, b: a > b,
+           "<=": lambda a, b: a <= b, ">=": lambda a, b: a >= b}
+
     class State:
         def __init__(self):
             self.tpath, self.nodes, self.keys, self.dirty, self.moves, self.unknown = (), {}, {}, set(), [], None
+            self.ints = {}      # integer locals that hold a constant on this path
 
     def nodeval(s, e):
         """name of the node a pointer expression designates, None if not understood"""
@@ -2215,17 +2290,31 @@ def check_orient(ck, fn):
             return b + (f[1],)
         return None
 
-    def assign(s, lhs, rhs, node, conditional=False):
-        val = nodeval(s, rhs)
+    def targets(s, lhs, conditional=False):
+        """the places an lvalue expression designates in the state s: ("var", did, conditional) | ("link", node or None, side) |
+        ("key",); an lvalue of another form designates nothing the evaluation tracks"""
         lhs0 = peel(lhs)
         if lhs0 is None:
-            return
+            return []
         if lhs0["k"] == "ConditionalOperator":
-            for c in kids(lhs0)[1:]:
-                assign(s, c, rhs, node, True)
-            return
+            return [x for c in kids(lhs0)[1:] for x in targets(s, c, True)]
         d = ref_of(lhs0)
         if d is not None:
+            return [("var", d, conditional)]
+        f = match.field_of(lhs0)
+        if f and f[1] in ("left", "right"):
+            return [("link", nodeval(s, f[0]), f[1])]
+        if f and f[1] == "key":
+            return [("key",)]
+        return []
+
+    def store(s, tg, val, node, ival=None):
+        if tg[0] == "var":
+            d, conditional = tg[1], tg[2]
+            if ival is not None and not conditional:
+                s.ints[d] = ival
+            else:
+                s.ints.pop(d, None)
             if d == t:
                 if conditional or val is None or s.tpath is None:
                     s.unknown = s.unknown or ("where `%s` takes the search position is not understood" % dtable.describe(node), node)
@@ -2240,21 +2329,44 @@ def check_orient(ck, fn):
             else:
                 s.nodes.pop(d, None)
             s.keys.pop(d, None)
-            return
-        f = match.field_of(lhs0)
-        if f and f[1] in ("left", "right"):
-            b = nodeval(s, f[0])
-            if b is not None:
-                s.dirty.add((b, f[1]))
-            return
-        if f and f[1] == "key":
+        elif tg[0] == "link":
+            if tg[1] is not None:
+                s.dirty.add((tg[1], tg[2]))
+        elif tg[0] == "key":
             s.unknown = s.unknown or ("a key is overwritten", node)
+
+    def assign(s, lhs, rhs, node, conditional=False):
+        val = nodeval(s, rhs)
+        for tg in targets(s, lhs, conditional):
+            store(s, tg, val, node, const_int(rhs))
+
+    def assign_all(s, lhss, rhss, node, conditional=False):
+        """std::tie(lhss...) = std::make_tuple(rhss...): all values are read and all targets are bound in the state before the
+        statement, then the targets are written from left to right"""
+        vals = [nodeval(s, r) for r in rhss]
+        tgs = [targets(s, l, conditional) for l in lhss]
+        flat = [(x[0], x[1]) if x[0] == "var" else x for tg in tgs for x in tg if x[0] != "link" or x[1] is not None]
+        if len(set(flat)) != len(flat):
+            s.unknown = s.unknown or ("`%s` writes the same place twice" % dtable.describe(node), node)
+        for tg, val, r in zip(tgs, vals, rhss):
+            for x in tg:
+                store(s, x, val, node, const_int(r))
 
     def effects(s, e):
         """assignments and by-reference uses inside one executed expression, operands first"""
+        understood = tie_calls(e)
+        maybe = set()       # nodes below an operand that is evaluated on some executions of e only
+        for y in ir.walk(e):
+            if y["k"] == "ConditionalOperator" or (y["k"] == "BinaryOperator" and y.get("op") in ("&&", "||")):
+                for c in kids(y)[1:]:
+                    maybe.update(id(z) for z in ir.walk(c))
         for y in post_order(e):
             if y["k"] == "BinaryOperator" and y.get("op") == "=":
-                assign(s, kids(y)[0], kids(y)[1], y)
+                assign(s, kids(y)[0], kids(y)[1], y, id(y) in maybe)
+                continue
+            ta = tie_assign(y)
+            if ta:
+                assign_all(s, ta[0], ta[1], y, id(y) in maybe)
                 continue
             w = match.unop(y, ("++", "--")) or (match.binop(y, ASSIGN_OPS) if y["k"] in ("CompoundAssignOperator", "CXXOperatorCallExpr") else None)
             if w and ref_of(w[1]) in (t, k):
@@ -2262,7 +2374,8 @@ def check_orient(ck, fn):
                 s.tpath = None
             elif w and ref_of(w[1]) is not None:
                 s.nodes.pop(ref_of(w[1]), None)
-            if "callee" in y and match.functor_call(y) is None and y["k"] not in ("CXXConstructExpr", "CXXTemporaryObjectExpr"):
+                s.ints.pop(ref_of(w[1]), None)
+            if "callee" in y and match.functor_call(y) is None and y["k"] not in ("CXXConstructExpr", "CXXTemporaryObjectExpr") and id(y) not in understood:
                 for a in kids(y)[(1 if y.get("member_call") else 0):]:
                     a0 = a
                     if a0 is not None and a0["k"] == "UnaryOperator" and a0.get("op") == "&" and kids(a0):
@@ -2272,6 +2385,7 @@ def check_orient(ck, fn):
                             s.unknown = s.unknown or ("t is handed to %s()" % y["callee"]["name"], y)
                             s.tpath = None
                         s.nodes.pop(a0["ref"]["id"], None)
+                        s.ints.pop(a0["ref"]["id"], None)
 
     def replay(run):
         s = State()
@@ -2282,6 +2396,8 @@ def check_orient(ck, fn):
                 if init is None:
                     continue
                 effects(s, init)
+                if const_int(init) is not None and (v.get("ty") or "").replace("const ", "").strip() in INT_TYPES:
+                    s.ints[v["did"]] = const_int(init)
                 ty = (v.get("ty") or "").replace(" ", "")
                 if ty.endswith("&") and "*" in ty:
                     if any(y["k"] == "DeclRefExpr" and (y["ref"]["id"] == t or y["ref"]["id"] in s.nodes) for y in ir.walk(init)):
@@ -2297,14 +2413,16 @@ def check_orient(ck, fn):
                 effects(s, ev[1])
             elif ev[0] == "loop":
                 for y in ir.walk(ev[1]):
-                    w = match.unop(y, ("++", "--")) or (match.binop(y, ASSIGN_OPS) if y["k"] in ("BinaryOperator", "CompoundAssignOperator", "CXXOperatorCallExpr") else None)
-                    if w and ref_of(w[1]) == t:
-                        s.unknown = s.unknown or ("t is assigned inside a nested loop", y)
-                        s.tpath = None
-                    elif w and ref_of(w[1]) is not None:
-                        s.nodes.pop(ref_of(w[1]), None)
-                    elif w and match.field_of(w[1]) and match.field_of(w[1])[1] in ("left", "right"):
-                        s.unknown = s.unknown or ("links are written inside a nested loop", y)
+                    for lv in written_lvalues(y):
+                        for lv0 in ([peel(c) for c in kids(peel(lv))[1:]] if peel(lv) is not None and peel(lv)["k"] == "ConditionalOperator" else [lv]):
+                            if ref_of(lv0) == t:
+                                s.unknown = s.unknown or ("t is assigned inside a nested loop", y)
+                                s.tpath = None
+                            elif ref_of(lv0) is not None:
+                                s.nodes.pop(ref_of(lv0), None)
+                                s.ints.pop(ref_of(lv0), None)
+                            elif match.field_of(lv0) and match.field_of(lv0)[1] in ("left", "right"):
+                                s.unknown = s.unknown or ("links are written inside a nested loop", y)
                 if has_cmp(ev[1]):
                     s.unknown = s.unknown or ("keys are compared inside a nested loop", ev[1])
         return s
@@ -2335,9 +2453,145 @@ def check_orient(ck, fn):
         und("the node the key is compared with in %s is not understood" % dtable.describe(strip_casts(n)), n)
     generic = opaque_atomize(special)
 
+    def is_int(e):
+        return e is not None and (e.get("ty") or "").replace("const ", "").strip() in INT_TYPES
+
+    def read_by_value(did, assigned=False):
+        """every mention of the local is a read of its value (assigned: or the left side of a plain assignment): no reference
+        to it, no address of it, no call that receives it"""
+        for y in ir.walk(fn.body):
+            if y["k"] == "VarDecl" and (y.get("ty") or "").rstrip().endswith("&") and any(z["k"] == "DeclRefExpr" and z["ref"]["id"] == did for z in ir.walk(y)):
+                return False
+            if y["k"] != "DeclRefExpr" or y["ref"]["id"] != did:
+                continue
+            inner, par = y, fn.parent(y)
+            while par is not None and (par["k"] in CASTS or par["k"] in WRAP):
+                inner, par = par, fn.parent(par)
+            if par is None:
+                return False
+            if par["k"] == "BinaryOperator" and par.get("op") in tuple(CMP) + ("+", "-", "*", "&&", "||"):
+                continue
+            if assigned and par["k"] == "BinaryOperator" and par.get("op") == "=" and kids(par)[0] is inner:
+                continue
+            if par["k"] == "UnaryOperator" and par.get("op") in ("!", "-", "+") or par["k"] in ("ConditionalOperator", "IfStmt", "ReturnStmt"):
+                continue
+            return False
+        return True
+
+    def int_local(e, run):
+        """initialiser of the integer local e reads, if the local was declared on this path, is written by nothing but its
+        declaration and is only read by value (so that it still holds what the initialiser yielded), else None"""
+        if e is None or e["k"] != "DeclRefExpr" or e["ref"].get("kind") != "local" or not is_int(e):
+            return None
+        did = e["ref"]["id"]
+        init = run.env.get(did)
+        if not isinstance(init, dict) or single_init(fn, did) is not init or not read_by_value(did):
+            return None
+        for y in ir.walk(init):     # what the initialiser reads must still be what it was: parameters, locals written once
+            if y["k"] == "DeclRefExpr" and y["ref"].get("kind") == "local" and y["ref"]["id"] != did and single_init(fn, y["ref"]["id"]) is None:
+                return None
+        return init
+
+    def at_decl(run, did):
+        """the run as it stood when the local was declared: that is where its initialiser was evaluated"""
+        for i, ev in enumerate(run.events):
+            if ev[0] == "decl" and ev[1].get("did") == did:
+                r2 = dtable.Run(run.atomize, run.val, fn)
+                r2.events, r2.env = run.events[:i], run.env
+                return r2
+        return None
+
+    def int_value(e, run, depth=0):
+        """value of an integer expression made of constants, sign, ?: and conditions (as 0 / 1), of locals as int_local()
+        accepts them and of locals that hold a constant on this path; a condition is decided by the table, at the place
+        where the expression was evaluated.  None: not of this form"""
+        if e is None or depth > 8:
+            return None
+        c = const_int(e)
+        if c is not None:
+            return c
+        e0 = peel(e)
+        if e0 is None:
+            return None
+        if e0["k"] == "UnaryOperator" and e0.get("op") in ("-", "+") and not e0.get("postfix"):
+            v = int_value(kids(e0)[0], run, depth + 1)
+            return None if v is None else -v if e0["op"] == "-" else v
+        if e0["k"] == "ConditionalOperator":
+            c0, a, b = kids(e0)
+            return int_value(a if run.truth(c0) else b, run, depth + 1)
+        if e0["k"] == "DeclRefExpr":
+            init = int_local(e0, run)
+            if init is not None:
+                r2 = at_decl(run, e0["ref"]["id"])
+                return int_value(init, r2, depth + 1) if r2 is not None else None
+            if is_int(e0) and e0["ref"].get("kind") == "local" and read_by_value(e0["ref"]["id"], assigned=True):
+                return replay(run).ints.get(e0["ref"]["id"])
+            return None
+        if (e0.get("ty") or "").replace("const ", "") == "bool":
+            return 1 if run.truth(e0) else 0
+        return None
+
+    def int_test(n, run):
+        """truth of a test of integers that hold the outcome of comparisons (int side = cmp(k, t->key) ? -1 : ...;
+        if (side == 0) / if (side < 0) / if (side)): decided from the initialiser as evaluated at the declaration, or from
+        the constant the local was assigned on this path"""
+        if n["k"] == "DeclRefExpr" and is_int(n) and not isinstance(run.env.get(n["ref"]["id"]), bool):
+            v = int_value(n, run)
+            return None if v is None else v != 0
+        if n["k"] == "BinaryOperator" and n.get("op") in CMP:
+            a, b = kids(n)
+            if (is_int(peel(a)) or const_int(a) is not None) and (is_int(peel(b)) or const_int(b) is not None) \
+                    and not (const_int(a) is not None and const_int(b) is not None):
+                va = int_value(a, run)
+                vb = int_value(b, run) if va is not None else None
+                return CMP[n["op"]](va, vb) if va is not None and vb is not None else None
+        return None
+
+    def free(did, depth=0):
+        """the value of the local does not depend on the outcome of key comparisons made in this function: a pointer (which
+        node it designates may, whether that node or its links are null does not), or a local written by its declaration only
+        whose initialiser calls no function object and reads free locals only"""
+        decls = [y for y in ir.walk(fn.body) if y["k"] == "VarDecl" and y.get("did") == did]
+        if not decls:
+            return True         # a parameter, a global
+        if (decls[0].get("ty") or "").replace("const", "").replace("&", "").rstrip().endswith("*"):
+            return True
+        init = single_init(fn, did)
+        if init is None or depth > 6:
+            return False
+        for y in ir.walk(init):
+            if match.functor_call(y) is not None or y["k"] == "LambdaExpr":
+                return False
+            if y["k"] == "DeclRefExpr" and y["ref"].get("kind") == "local" and y["ref"]["id"] != did and not free(y["ref"]["id"], depth + 1):
+                return False
+        return True
+
+    def dependent_read(n):
+        """a read of a local that is not free() inside the condition n; pointers (variables, fields) are not entered: whether
+        a node pointer is null is a property of the tree the function is given"""
+        if n is None or n["k"] == "LambdaExpr":
+            return None
+        if n["k"] in ("MemberExpr", "DeclRefExpr") and (n.get("ty") or "").replace("const", "").rstrip().endswith("*"):
+            return None
+        if n["k"] == "DeclRefExpr":
+            return n if n["ref"].get("kind") == "local" and not free(n["ref"]["id"]) else None
+        for c in kids(n):
+            y = dependent_read(c)
+            if y is not None:
+                return y
+        return None
+
     def atomize(n, run):
+        r = int_test(n, run)
+        if r is not None:
+            return r
         r = generic(n, run)
         if isinstance(r, tuple) and r[0].startswith("c:"):
+            # an opaque condition is a free atom only if it cannot depend on what the comparisons of this round yielded
+            y = dependent_read(n)
+            if y is not None:
+                und("the condition `%s` reads `%s`, whose value may depend on the outcome of key comparisons in a way that is not understood"
+                    % (dtable.describe(strip_casts(n)), y["ref"]["name"]), n)
             return (r[0] + "@%d" % len(run.events), r[1])      # the same test after a change of the links is another condition
         return r
     leaves = dtable.explore(body, atomize, fn)
@@ -2482,8 +2736,19 @@ def check_insert_orient(ck, fn):
                 env[v["did"]] = value(root)
                 continue
             e = strip_casts(root)
+            ta = tie_assign(e)
             if e["k"] == "BinaryOperator" and e.get("op") == "=":
                 value(e)
+            elif ta and not (len(ta[0]) > 1 and any(ref_of(l) is not None for l in ta[0])) \
+                    and not any("callee" in y or match.unop(y, ("++", "--")) or y["k"] == "CompoundAssignOperator" or (y["k"] == "BinaryOperator" and y.get("op") == "=")
+                                for a in ta[0] + ta[1] for y in ir.walk(a)):
+                # std::tie(a, b, ...) = std::make_tuple(x, y, ...): all values are read before the first store
+                vals = [value(r) for r in ta[1]]
+                places = [(value(match.field_of(strip_casts(l))[0]), match.field_of(strip_casts(l))[1]) if match.field_of(strip_casts(l)) else ref_of(l) for l in ta[0]]
+                if len(set(places)) != len(places):
+                    und("the statement at line %s writes the same place twice" % e.get("l"))
+                for l, v_ in zip(ta[0], vals):
+                    assign(strip_casts(l), v_)
             elif any(match.unop(y, ("++", "--")) or (match.binop(y, ASSIGN_OPS) and y["k"] in ("BinaryOperator", "CompoundAssignOperator"))
                      or ("callee" in y and y["k"] in ("CallExpr", "CXXMemberCallExpr")) for y in ir.walk(e)):
                 und("the statement at line %s is not understood" % e.get("l"))
